@@ -492,13 +492,14 @@ func dischargeRolePanicRow(p *Prog, r *Report, c *FC, s panicSite, key string, r
 	// written by InitGenesis on every path
 	initOK := false
 	if initFn := p.Func("cctp.InitGenesis"); initFn != nil {
-		ic := &FC{p: p, r: r, fn: initFn, x: p.tx(initFn), name: "InitGenesis"}
-		calls := ic.calls(row[1])
-		fi := p.info(initFn)
-		initOK = len(calls) > 0
-		for _, ret := range allReturns(initFn) {
-			if fi.entryReachesAvoiding(ret, ic.instrs(calls)) {
-				initOK = false
+		if ic := p.fc(r, initFn, "InitGenesis", nil); ic != nil {
+			via := ic.viaAnchors(ic.instrs(ic.calls(row[1])))
+			fi := p.info(initFn)
+			initOK = len(via) > 0
+			for _, ret := range allReturns(initFn) {
+				if fi.entryReachesAvoiding(ret, via) {
+					initOK = false
+				}
 			}
 		}
 	}
